@@ -170,6 +170,23 @@ def rule_a(ctx: Context, R: Reporter):
                     if isinstance(c.func, ast.Attribute) and c.func.attr in ("predict", "predict_proba") and cl in [t for t in ctx.res.expr_types(m, c.func.value) if isinstance(t, ClassInfo)]:
                         sites.append((sc, m, nd, c))
     R.floor("C14.a", "predict sites on the shared clusterer", len(sites), 3)
+    # the clusterer is fitted and queried in unit-cube coordinates only
+    from ..records import Tagger
+
+    n_args = 0
+    for (sc, attr) in users:
+        for m in sc.methods.values():
+            fl = flow_of(m.node)
+            tgr = Tagger(ctx, m)
+            for nd in fl.cfg.stmt_nodes():
+                for c in calls_in_node(nd):
+                    if isinstance(c.func, ast.Attribute) and c.func.attr in ("fit", "predict", "predict_proba") and cl in [t for t in ctx.res.expr_types(m, c.func.value) if isinstance(t, ClassInfo)] and c.args:
+                        n_args += 1
+                        tag = tgr.tag(c.args[0], nd)
+                        R.check("C14.a", f"{m.short}: the clusterer's {c.func.attr} receives unit-cube coordinates", tag == "u", m, c,
+                                msg=f"{m.short}: `{unparse(c)[:60]}` passes an array of field '{tag}' to the clusterer, which is fitted in unit-cube coordinates `u`: labels are "
+                                    f"predicted in the wrong coordinate system and refer to other clusters' modes", key=f"cluster-coords:{m.short}:{c.func.attr}:{_ord(c, m)}")
+    R.floor("C14.a", "clusterer fit/predict argument sites", n_args, 4)
     for (sc, m, nd, c) in sites:
         fl = flow_of(m.node)
         cfg = fl.cfg
@@ -192,6 +209,11 @@ def rule_a(ctx: Context, R: Reporter):
                 f"and normalisation bounds / cluster centres are unset",
             witness={"path_facts": [(unparse(t)[:60], p) for (t, p) in facts], "reason": why}, key=f"predict-unfitted:{m.short}:{norm_text(c)[:40]}:{nd.lineno if False else ''}{_ordinal(sites, (sc, m, nd, c))}",
         )
+
+
+def _ord(call: ast.Call, m: FuncInfo) -> int:
+    same = [c for c in calls_in(m.node) if isinstance(c.func, ast.Attribute) and isinstance(call.func, ast.Attribute) and c.func.attr == call.func.attr and norm_text(c.func.value) == norm_text(call.func.value)]
+    return same.index(call) if call in same else 0
 
 
 def _ordinal(sites, s) -> int:
@@ -272,7 +294,7 @@ def mode_class(ctx: Context) -> ClassInfo:
     """By role: the class with >= 2 classmethod factories returning cls(...)
     whose constructor stores means / covariances / degrees of freedom."""
     for c in ctx.prog.classes.values():
-        cms = [m for m in c.methods.values() if m.is_classmethod and any(isinstance(r, ast.Return) and isinstance(r.value, ast.Call) and dotted(r.value.func) == "cls" for r in walk_no_nested(m.node))]
+        cms = [m for m in c.methods.values() if m.is_classmethod and any(isinstance(r, ast.Return) and isinstance(r.value, ast.Call) and dotted(r.value.func).split(".")[0] == "cls" for r in walk_no_nested(m.node))]
         if len(cms) >= 2 and "__init__" in c.methods and {"means", "covariances"} <= set(c.methods["__init__"].params):
             return c
     raise AnalysisError("C14: mode-statistics class (constructor(means, covariances, ...) + factories) not found")
@@ -475,11 +497,11 @@ def _lin_in(e: ast.expr, sym: str) -> Optional[Tuple[int, int]]:
 
 
 def run(ctx: Context, R: Reporter):
-    rule_a(ctx, R)
-    rule_b(ctx, R)
-    rule_c(ctx, R)
-    rule_d(ctx, R)
-    rule_e(ctx, R)
+    R.guard(rule_a, ctx, R)
+    R.guard(rule_b, ctx, R)
+    R.guard(rule_c, ctx, R)
+    R.guard(rule_d, ctx, R)
+    R.guard(rule_e, ctx, R)
 
 
 def variants():
